@@ -2613,10 +2613,20 @@ class FuncMod(ValueFunc):
             return NULL
 
         if a.isInt() and b.isInt():
-            return ValueInt(a.value % b.value)
+            divisor = b.value
+            if divisor == 0:
+                raise CklRuntimeError(
+                    ValueString("ERROR"), "divide by zero", pos
+                )
+            return ValueInt(a.value % divisor)
 
         if a.isNumerical() and b.isNumerical():
-            return ValueDecimal(a.asDecimal().value % b.asDecimal().value)
+            divisor = b.asDecimal().value
+            if divisor == 0.0:
+                raise CklRuntimeError(
+                    ValueString("ERROR"), "divide by zero", pos
+                )
+            return ValueDecimal(a.asDecimal().value % divisor)
 
         raise CklRuntimeError(
             ValueString("ERROR"),
